@@ -75,6 +75,12 @@ class Flow:
         for arg in a.posonlyargs + a.args + ([a.vararg] if a.vararg else []) + a.kwonlyargs + ([a.kwarg] if a.kwarg else []):
             entry_defs.append(Def(arg.arg, cfg.entry, "param"))
             self.locals.add(arg.arg)
+        # names declared nonlocal / global: their value at entry comes from outside the activation
+        for sub in ast.walk(self.fi.node):
+            if isinstance(sub, (ast.Nonlocal, ast.Global)) and self._own_stmt(sub):
+                for nm in sub.names:
+                    entry_defs.append(Def(nm, cfg.entry, "outer"))
+                    self.locals.add(nm)
         self.node_defs[cfg.entry.id] = entry_defs
         for n in cfg.nodes:
             ds = []
@@ -115,6 +121,14 @@ class Flow:
                 self.node_defs.setdefault(n.id, []).extend(ds)
                 for d in ds:
                     self.locals.add(d.name)
+
+    def _own_stmt(self, node):
+        """Is ``node`` a statement of this function itself (not of a nested def)?"""
+        for ch in self.fi.children:
+            for sub in ast.walk(ch.node):
+                if sub is node:
+                    return False
+        return True
 
     def _reach(self):
         cfg = self.cfg
@@ -213,6 +227,8 @@ class Flow:
     def def_term(self, d, depth=0):
         if d.kind == "param":
             return ("param", d.name)
+        if d.kind == "outer":
+            return ("outer", d.name)
         if d.kind == "assign" or d.kind == "walrus":
             t = self.term(d.value, d.node, depth + 1)
             for p in d.path:
